@@ -11,7 +11,7 @@ from ..framing import families, Family
 from ..model import Program, FuncInfo, ClassInfo, NotConst, norm, node_src
 from ..paths import enumerate_paths, Path, no_raise
 from ..replay import Replay
-from ..symx import Sym, Lin, Fact, entails_ge, entails_eq, term_str
+from ..symx import Sym, Lin, Fact, entails_ge, entails_eq, term_str, domain_constraints
 
 PID = "C01"
 LEVEL = "other"
@@ -57,33 +57,6 @@ def byte_t(data: str, idx: int) -> Tuple:
 
 def has_eq(facts: List[Fact], lin: Lin) -> bool:
     return entails_eq(facts, lin)
-
-
-def domain_constraints(facts: List[Fact], term: Tuple) -> Tuple[Optional[set], set, List[Tuple]]:
-    """(allowed values or None, excluded values, symbolic terms it equals) for a term."""
-    allowed: Optional[set] = None
-    excluded: set = set()
-    equals: List[Tuple] = []
-    for f in facts:
-        if f.kind in ("eq", "ne") and term in f.lin.terms and abs(f.lin.terms[term]) == 1:
-            rest = f.lin - Lin({term: f.lin.terms[term]})
-            rest = rest.scale(-1 / f.lin.terms[term])
-            if rest.is_const():
-                v = int(rest.const)
-                if f.kind == "eq":
-                    allowed = {v} if allowed is None else allowed & {v}
-                else:
-                    excluded.add(v)
-            elif f.kind == "eq":
-                t = rest.single_term()
-                if t is not None:
-                    equals.append(t)
-        elif f.kind in ("in", "notin") and f.lin.single_term() == term:
-            if f.kind == "in":
-                allowed = set(f.data) if allowed is None else allowed & set(f.data)
-            else:
-                excluded |= set(f.data)
-    return allowed, excluded, equals
 
 
 def crc_fact(facts: List[Fact], res, fam: Family, data: str, frame_end: Lin) -> bool:
